@@ -281,6 +281,21 @@ Theorem C10_wiring_package : forall db p,
 Proof. exact package_wiring_correct. Qed.
 Print Assumptions C10_wiring_package.
 
+(** ENUM TYPES. For an accepted package ([enums_ok]) every signal with value descriptions has exactly one enum type
+    <Msg>_<Sig> (underlying type = the signal's primitive type, one constant <Msg>_<Sig>_<slug> per description) whose String()
+    returns, for EVERY value v, [enum_string_spec m s v]: the text of the FIRST value description whose value is v (1-bit
+    signals: value 1 for true, any other value for false), otherwise <Msg>_<Sig>(<v in decimal>) resp. <Msg>_<Sig>(true|false);
+    and the package declares no other enum type *)
+Theorem C10_wiring_enums : forall db p,
+  enums_ok db p = true ->
+  (forall m s, In m (db_messages db) -> In s (msg_signals m) -> has_custom_type s = true ->
+     exists e, filter (fun e => name_eqb (Wiring.e_name e) (enum_type_name m s)) (p_enums p) = [e] /\
+               Wiring.e_name e = enum_type_name m s /\ forall v, Wiring.enum_string e v = Some (enum_string_spec m s v)) /\
+  (forall e, In e (p_enums p) -> exists m s, In m (db_messages db) /\ In s (msg_signals m) /\
+                                             has_custom_type s = true /\ Wiring.e_name e = enum_type_name m s).
+Proof. exact enums_correct. Qed.
+Print Assumptions C10_wiring_enums.
+
 (** non-vacuity: Reset, the five setters and getters of the example message as harness/genwire prints them; a setter that
     converts before saturating (cin = int16 instead of int64) is refused *)
 Definition w_unmarshal_rejects : list nustmt := [NReject (RcNe HId HId); NReject (RcNe HLen HLen); NReject RcRemote; NReject (RcNe HExt HExt)].
@@ -312,11 +327,11 @@ Example C10_wiring_nonvacuous :
                    w_frame := []; w_unmarshal := w_unmarshal_rejects; w_reset := []; w_copy := true; w_setters := []; w_getters := [] |} in
   let db := {| db_source_file := []; db_version := []; db_messages := [e 1; e 2; e 3; C03_example_message];
                db_nodes := [{| node_name := [78]; node_description := [] |}] |} in
-  let p := {| p_wirings := [we 1 0; we 2 1; we 3 2; C10_example_wiring [105; 110; 116; 54; 52]]; p_nodes := [([78], 0)];
+  let p := {| p_enums := []; p_wirings := [we 1 0; we 2 1; we 3 2; C10_example_wiring [105; 110; 116; 54; 52]]; p_nodes := [([78], 0)];
               p_dispatch := [Some [1]; Some [2]; Some [3]; Some [77]; None] |} in
   package_wiring_ok db p = true /\ dispatch_ok db p = true /\
   wiring_dispatch db p (frame_of C03_example_message [1; 1; -5; 0; 0x40490FDB]) =
     Some (Some (C03_example_message, inr [1; 1; -5; 0; 0x40490FDB])) /\
   (* the same wirings in a package whose md entry of message 3 points at index 2 are refused *)
-  package_wiring_ok db {| p_wirings := [we 1 0; we 2 1; we 3 2; we 77 2]; p_nodes := [([78], 0)]; p_dispatch := [] |} = false.
+  package_wiring_ok db {| p_enums := []; p_wirings := [we 1 0; we 2 1; we 3 2; we 77 2]; p_nodes := [([78], 0)]; p_dispatch := [] |} = false.
 Proof. vm_compute. repeat split; reflexivity. Qed.
